@@ -110,7 +110,7 @@ def check_one(ctx, cfg, kind, rng, drv, seed):
 def run(ctx):
     rng = ctx.rng
     drv = []
-    for k in range(ctx.n(120, 800)):
+    for k in range(ctx.n(120, 3000)):
         cfg, kind = gen_config(rng, k)
         check_one(ctx, cfg, kind, rng, drv, seed=rng.randrange(1 << 30))
         if k < 3:
